@@ -5,6 +5,7 @@ import (
 	"fmt"
 	"math/rand"
 	"net/http"
+	"strconv"
 	"strings"
 
 	"github.com/emersion/go-webdav/verifharness/fw"
@@ -37,7 +38,8 @@ func run(c *fw.Ctx) {
 	g.mutations()
 	g.headers()
 	g.oversized()
-	c.Note("exhaustive_parts", "matrix: status 100..599 x 7 body kinds x 23 methods (+ Create early answer x 3 kinds); uploads: full product of answer time x size x writes x stop-on-error x statuses; "+
+	g.errorBodies() // last: a panic on Create's upload goroutine kills the worker
+	c.Note("exhaustive_parts", "errbodies: full product of 21 error-body contents x 7 lengths (0,1,1023,1024,1025,4096,1 MiB) x 10 Content-Types x statuses x 23 methods; matrix: status 100..599 x 7 body kinds x 23 methods (+ Create early answer x 3 kinds); uploads: full product of answer time x size x writes x stop-on-error x statuses; "+
 		"placements: all assignments of {200,204,102,302,403,404,500,507}; truncation: every prefix of the chosen documents and objects")
 }
 
@@ -1114,6 +1116,182 @@ func (g *gen) headers() {
 	}
 }
 
+// --- error-answer bodies -----------------------------------------------------------------------------
+
+// The body of a non-2xx answer as an input axis of its own: length x content
+// x Content-Type x status x method. Whatever the body holds, the call returns
+// an error carrying the status (and the DAV:error condition when the body is
+// a complete DAV:error document of an XML type) and nothing else.
+
+var errBodyLens = []int{0, 1, 1023, 1024, 1025, 4096, 1 << 20}
+
+var errBodyContents = []string{"ascii", "nul", "space", "space-then-text",
+	"utf8-w2s0", "utf8-w2s1", "utf8-w3s0", "utf8-w3s1", "utf8-w3s2", "utf8-w4s0", "utf8-w4s1", "utf8-w4s2", "utf8-w4s3",
+	"x80-run", "xbf-run", "xff-run", "xc0x80", "lead-at-cut", "cont-after-space", "daverr-ok", "daverr-cut"}
+
+var errBodyTypes = []string{"text/plain", "text/plain; charset=utf-8", "text/plain; charset=iso-8859-1", "text/html",
+	"application/xml", "text/xml; charset=utf-8", "", "text/plain; charset", ";;;", "TEXT/Plain"}
+
+var errBodyCache = map[string][]byte{}
+
+// errBody builds the body deterministically; ok=false when the content class
+// has no instance of that length.
+func errBody(content string, n int, fam string) (b []byte, ok bool) {
+	key := fmt.Sprintf("%s:%d:%s", content, n, fam)
+	if c, hit := errBodyCache[key]; hit {
+		return c, c != nil
+	}
+	defer func() {
+		if !ok {
+			b = nil
+		}
+		errBodyCache[key] = b
+	}()
+	fill := func(unit []byte) []byte {
+		if n == 0 {
+			return []byte{}
+		}
+		return bytes.Repeat(unit, n/len(unit)+1)[:n]
+	}
+	var w, sh int
+	switch {
+	case content == "ascii":
+		return fill([]byte("The server refused the request because of insufficient frobnication. ")), true
+	case content == "nul":
+		return fill([]byte("nul\x00byte\x00\x00")), true
+	case content == "space":
+		return fill([]byte(" \t\r\n")), true
+	case content == "space-then-text":
+		if n < 2 {
+			return nil, false
+		}
+		b = fill([]byte("  \n"))
+		copy(b[n/2:], fill([]byte("late text ")))
+		return b, true
+	case content == "x80-run":
+		return fill([]byte{0x80}), true
+	case content == "xbf-run":
+		return fill([]byte{0xbf, 0x80, 0x9f}), true
+	case content == "xff-run":
+		return fill([]byte{0xff}), true
+	case content == "xc0x80":
+		return fill([]byte{0xc0, 0x80, 0xfe}), true
+	case content == "cont-after-space":
+		// white space, then nothing but continuation bytes
+		if n < 8 {
+			return nil, false
+		}
+		b = fill([]byte{0x80, 0xa0})
+		copy(b, "  \r\n\t ")
+		return b, true
+	case content == "lead-at-cut":
+		// ASCII with a lone lead byte where a 1024-byte limit cuts, and at the end
+		if n < 2 {
+			return nil, false
+		}
+		b = fill([]byte("plain ascii text "))
+		for _, p := range []int{1022, 1023, 1024, n - 1} {
+			if p >= 0 && p < n {
+				b[p] = []byte{0xe2, 0xf0, 0xc3, 0xe2}[p%4]
+			}
+		}
+		return b, true
+	case fmt.Sscanf(content, "utf8-w%ds%d", &w, &sh) == 2:
+		if n <= sh {
+			return nil, false
+		}
+		r := map[int]string{2: "é", 3: "€", 4: "😀"}[w]
+		var sb bytes.Buffer
+		sb.WriteString(strings.Repeat("a", sh))
+		for sb.Len() < n {
+			sb.WriteString(r)
+		}
+		return sb.Bytes()[:n], true // the last rune may be cut: that is the point
+	case content == "daverr-ok" || content == "daverr-cut":
+		sp, lo := condFor(fam)
+		head := fmt.Sprintf(`<?xml version="1.0" encoding="utf-8"?><D:error xmlns:D="DAV:"><c:%s xmlns:c="%s"/>`, lo, sp)
+		tail := "</D:error>"
+		if content == "daverr-cut" {
+			if n == 0 {
+				return nil, false
+			}
+			doc := head + "<!--" + strings.Repeat(" filler é", n/8+1) + "-->" + tail
+			return []byte(doc)[:n], true
+		}
+		min := len(head) + len(tail)
+		switch {
+		case n < min:
+			return nil, false
+		case n < min+7:
+			return []byte(head + strings.Repeat(" ", n-min) + tail), true
+		}
+		return []byte(head + "<!--" + strings.Repeat("x", n-min-7) + "-->" + tail), true
+	}
+	return nil, false
+}
+
+func (g *gen) errorBodies() {
+	statuses := []int{302, 404, 500}
+	if g.c.Thorough() {
+		statuses = []int{100, 301, 302, 400, 404, 409, 500, 503, 599}
+	}
+	order := make([]*minfo, 0, len(methods))
+	for mi := range methods {
+		if methods[mi].Kind != "create" {
+			order = append(order, &methods[mi])
+		}
+	}
+	order = append(order, methodByName("webdav.Create"))
+	for _, m := range order {
+		for _, content := range errBodyContents {
+			for _, n := range errBodyLens {
+				body, ok := errBody(content, n, m.Fam)
+				if !ok {
+					continue
+				}
+				for ti, ct := range errBodyTypes {
+					for si, status := range statuses {
+						if n == 1<<20 && si != len(statuses)-1 {
+							continue // the 1 MiB bodies with one status only
+						}
+						idx, mine := g.next()
+						if !mine {
+							continue
+						}
+						cs := g.newCase(m, "errbodies", content, status)
+						if ct != "" {
+							cs.Header = [][2]string{{"Content-Type", ct}}
+						}
+						if m.Kind == "options" {
+							cs.Header = append(cs.Header, [2]string{"DAV", "1, addressbook"})
+						}
+						if n == 1<<20 {
+							cs.Gen = fmt.Sprintf("errbody:%s:%d:%s", content, n, m.Fam)
+							cs.body = body
+						} else {
+							cs.setBody(body)
+						}
+						cs.Chunk = []int{0, 0, 7, 1024}[idx%4]
+						cs.Exp = Expect{Verdict: "err", HTTPCode: status, NoData: true}
+						if content == "daverr-ok" && (ti == 4 || ti == 5) {
+							sp, lo := condFor(m.Fam)
+							cs.Exp.Cond = "{" + sp + "}" + lo
+						}
+						cs.Class = "http " + failClass(status)
+						cs.Family = "error body: " + content
+						cs.DKey = fmt.Sprintf("%s|http %s|errbody %s|len=%d|ct=%d", m.Name, failClass(status), content, n, ti)
+						g.c.Observe("error_bodies", fmt.Sprintf("%s, %d bytes", content, n), 1)
+						runCase(g.c, cs)
+						if cs.Gen != "" {
+							cs.body = nil
+						}
+					}
+				}
+			}
+		}
+	}
+}
+
 // --- oversized bodies ---------------------------------------------------------------------------------
 
 const oversize = 8 << 20
@@ -1125,6 +1303,14 @@ func genBody(name string) []byte {
 		arg = parts[1]
 	}
 	switch parts[0] {
+	case "errbody":
+		f := strings.Split(arg, ":")
+		if len(f) != 3 {
+			return nil
+		}
+		n, _ := strconv.Atoi(f[1])
+		b, _ := errBody(f[0], n, f[2])
+		return b
 	case "text8m":
 		return bytes.Repeat([]byte("All work and no play makes Jack a dull boy.\n"), oversize/44+1)
 	case "raw8m":
